@@ -321,6 +321,8 @@ func init() {
 			}
 			runOp([]string{"respread", "-", pick(rng, []string{"0", "0", "100"}), end, hx(s), genCuts(rng, len(s))})
 		}
+		// every public parser of untrusted data under hostile input (c03p.go)
+		genC03Parsers(tier, rng)
 	}
 }
 
